@@ -520,6 +520,14 @@ func CompileRegexp(re *syntax.Regexp, config Config) (*Engine, error) {
 		})
 		literals = extractor.ExtractPrefixes(re)
 
+		// A partial-coverage sequence (limits truncated some alternation branch)
+		// says nothing about matches of the branches it dropped: skipping to its
+		// next candidate, in a candidate loop or inside an engine, steps over
+		// them. It carries no usable information, so treat it as empty.
+		if literals != nil && literals.IsPartialCoverage() {
+			literals = literal.NewSeq()
+		}
+
 		// Build prefilter from prefix literals
 		if literals != nil && !literals.IsEmpty() {
 			builder := prefilter.NewBuilder(literals, nil)
